@@ -71,6 +71,15 @@ def handle : Handler := fun j => do
     | none => pure (Json.mkObj [("none", true)])
     | some r => pure (Json.mkObj [("env", envToJson r.sh.env), ("funcs", envToJson r.funcs), ("out", ofStrs r.out),
                                   ("status", Json.num (JsonNumber.fromNat r.status))])
+  | "csh" =>
+    -- the csh reading (spec from the manual) of the variable commands emitted for {old, new, opts}, applied to `base`
+    let old ← optOfJson (← j.getObjVal? "old")
+    let new ← envOfJson (← j.getObjVal? "new")
+    let base ← envOfJson (← j.getObjVal? "base")
+    let o ← optsOfJson (← j.getObjVal? "opts")
+    match cshApplyAll (emitVars o old new) base with
+    | none => pure (Json.mkObj [("none", true)])
+    | some e => pure (Json.mkObj [("env", envToJson e)])
   | "cli" =>
     let o ← j.getObjVal? "cli"
     let w ← j.getObjVal? "world"
